@@ -179,6 +179,7 @@ type zzBackends struct {
 	steps        int
 	ctypes       int
 	pauses       bool
+	big          int // > 0: every chunk carries this many known bytes in front of its two arbitrary ones (spans several engine reads)
 }
 
 var zzCTypes = []string{"text/event-stream", "application/octet-stream", "application/x-ndjson", "application/json"}
@@ -200,6 +201,13 @@ func (b *zzBackends) draw() *zzScript {
 		st := zzStep{kind: kind}
 		if kind == zzStepChunk || kind == zzStepPause || kind == zzStepChunkEOF || kind == zzStepPauseMid || kind == zzStepPauseLong {
 			st.data = gosym.Bytes("chunk", 2)
+			if b.big > 0 {
+				pre := make([]byte, b.big)
+				for i := range pre {
+					pre[i] = byte('a' + i%23)
+				}
+				st.data = append(pre, st.data...)
+			}
 		}
 		sc.steps = append(sc.steps, st)
 		if kind == zzStepEOF || kind == zzStepChunkEOF || kind == zzStepStall || kind == zzStepReset || kind == zzStepTruncated {
@@ -250,12 +258,14 @@ func (b *zzBackends) RoundTrip(req *http.Request) (*http.Response, error) {
 }
 
 type zzBody struct {
-	w      *zzBackends
-	a      *zzAttempt
-	ctx    context.Context
-	closed chan struct{}
-	once   sync.Once
-	i      int
+	w            *zzBackends
+	a            *zzAttempt
+	ctx          context.Context
+	closed       chan struct{}
+	once         sync.Once
+	i            int
+	rest         []byte // what is left of a chunk larger than the engine's read buffer
+	eofAfterRest bool
 }
 
 func (r *zzBody) Close() error {
@@ -294,6 +304,14 @@ func (r *zzBody) Read(p []byte) (int, error) {
 		r.end()
 		return 0, err
 	}
+	if len(r.rest) > 0 {
+		n := r.give(p, r.rest)
+		if len(r.rest) == 0 && r.eofAfterRest {
+			r.end()
+			return n, io.EOF
+		}
+		return n, nil
+	}
 	if r.i >= len(r.a.script.steps) {
 		r.end()
 		return 0, io.EOF
@@ -314,6 +332,10 @@ func (r *zzBody) Read(p []byte) (int, error) {
 		return r.give(p, st.data), nil
 	case zzStepChunkEOF:
 		n := r.give(p, st.data)
+		if len(r.rest) > 0 {
+			r.eofAfterRest = true
+			return n, nil
+		}
 		r.end()
 		return n, io.EOF
 	case zzStepEOF:
@@ -342,6 +364,7 @@ func (r *zzBody) Read(p []byte) (int, error) {
 
 func (r *zzBody) give(p []byte, data []byte) int {
 	n := copy(p, data)
+	r.rest = data[n:]
 	r.w.mu.Lock()
 	r.a.produced = append(r.a.produced, data[:n]...)
 	r.w.mu.Unlock()
@@ -420,6 +443,7 @@ func zzBytesEq(a, b []byte) bool {
 //	BODY   request body length (symbolic bytes)
 //	PROFILE 0 auto, 1 streaming, 2 standard
 //	ABORT  1: the client may go away at a symbolic read
+//	BIG    known bytes in front of every chunk's two arbitrary ones (chunks larger than the engine's 8-byte read buffer)
 //	FOCUS  which obligations are asserted (1 C01, 2 C02, 4 C04, 18 C18, 19 C19, 0 all)
 func VerifEngine() {
 	n := gosym.Param("N")
@@ -431,6 +455,7 @@ func VerifEngine() {
 	zzWorld = world
 	world.known, world.steps, world.ctypes = map[string]bool{}, steps, gosym.Param("CTYPES")
 	world.pauses = gosym.Param("PAUSES") == 1
+	world.big = gosym.Param("BIG")
 	if !gosym.Symbolic() {
 		gosym.SettleWindow = 200 * time.Millisecond
 		if world.pauses {
